@@ -134,7 +134,13 @@ class BehavioralRTLIRToVVisitorL1( bir.BehavioralRTLIRNodeVisitor ):
     return s._is_verilog_reserved( name )
 
   def process_unpacked_q( s, node, signal, signal_tplt ):
-    if isinstance( node.Type, rt.Port ):
+    # The pending indices select an element of a list of sub-components or
+    # interfaces: they belong right after the name of the port, also when
+    # the port is itself a (multi-dimensional) list of ports.
+    Type = node.Type
+    if isinstance( Type, rt.Array ):
+      Type = Type.get_sub_type()
+    if isinstance( Type, rt.Port ):
       filler = ''.join([f'[{i}]' for i in list(s._unpacked_q)])
       s._unpacked_q.clear()
       if '{}' in signal_tplt:
